@@ -301,6 +301,22 @@ def gen_ops(rng, prog: Program, n_ops: int):
             ops.append(["restore", int(rng.integers(0, min(nslots, 4)))])
             sid2, how2 = settable[int(rng.integers(len(settable)))]
             ops.append(["assign", sid2, how2, int(rng.integers(0, 10))])
+        elif r < 0.20:
+            # second hostile pattern: a state saved while nodes are outdated is restored right
+            # after a full update, and updated again without any assignment in between
+            sid, how = settable[int(rng.integers(len(settable)))]
+            slot = nslots % 4
+            nslots += 1
+            ops.append(["auto", False])
+            auto = False
+            ops.append(["assign", sid, how, int(rng.integers(1, 10))])
+            ops.append(["save", slot])
+            ops.append(["update"])
+            if rng.random() < 0.5:
+                ops.append(["read", "values"])
+            ops.append(["restore", slot])
+            ops.append(["update"] if rng.random() < 0.6 else
+                       ["update_names", [int(x) for x in rng.choice(nodes, size=min(2, len(nodes)), replace=False)]])
         elif r < 0.45:
             sid, how = settable[int(rng.integers(len(settable)))]
             ops.append(["assign", sid, how, int(rng.integers(0, 10))])
